@@ -7,7 +7,9 @@ package harness
 import (
 	"encoding/base64"
 	"encoding/json"
+	"errors"
 	"fmt"
+	"net/http"
 	"net/http/httptest"
 	"strings"
 	"testing"
@@ -28,9 +30,39 @@ type cfgHistStep struct {
 		By     string `json:"by"`
 		Method string `json:"method"`
 	} `json:"req"`
+	Ab bool `json:"ab"` // another user's response was cut off in mid-write just before
 }
 
-func (s cfgHistStep) name() string { return s.Cfg.Pair + "/" + s.Cfg.Src + "/" + s.Cfg.Method }
+// cfgHistCutWriter is a client that goes away after part of the reply has been written.
+type cfgHistCutWriter struct {
+	h    http.Header
+	left int
+}
+
+func (w *cfgHistCutWriter) Header() http.Header { return w.h }
+func (w *cfgHistCutWriter) WriteHeader(int)     {}
+func (w *cfgHistCutWriter) Write(p []byte) (int, error) {
+	if w.left <= 0 {
+		return 0, errors.New("write: broken pipe")
+	}
+	if len(p) > w.left {
+		n := w.left
+		w.left = 0
+		return n, errors.New("write: broken pipe")
+	}
+	w.left -= len(p)
+	return len(p), nil
+}
+
+const cfgHistOtherMarker = "carol-who-went-away"
+
+func (s cfgHistStep) name() string {
+	n := s.Cfg.Pair + "/" + s.Cfg.Src + "/" + s.Cfg.Method
+	if s.Ab {
+		n = "cut+" + n
+	}
+	return n
+}
 
 func cfgHistApply(idp *saml.IdentityProvider, s cfgHistStep) {
 	k := key(s.Cfg.Pair)
@@ -99,6 +131,16 @@ func TestC06ConfigHistory(t *testing.T) {
 			el.CreateAttr("AssertionConsumerServiceURL", spACS)
 			el.CreateElement("saml:Issuer").SetText(spEntityID)
 			body := "SAMLRequest=" + urlQueryEscape(base64.StdEncoding.EncodeToString(docBytes(el))) + "&RelayState=relay"
+			if st.Ab {
+				other := *session
+				other.NameID, other.UserEmail, other.UserName = cfgHistOtherMarker+"@example.com", cfgHistOtherMarker+"@example.com", cfgHistOtherMarker
+				idp.SessionProvider = c08FixedSession{&other}
+				ob := "SAMLRequest=" + urlQueryEscape(base64.StdEncoding.EncodeToString(docBytes(el))) + "&RelayState=" + cfgHistOtherMarker + "-relay"
+				or := httptest.NewRequest("POST", idpSSOURL, strings.NewReader(ob))
+				or.Header.Set("Content-Type", "application/x-www-form-urlencoded")
+				safely(func() { idp.ServeSSO(&cfgHistCutWriter{h: http.Header{}, left: 200 + rng.Intn(1500)}, or) })
+				idp.SessionProvider = c08FixedSession{session}
+			}
 			r := httptest.NewRequest("POST", idpSSOURL, strings.NewReader(body))
 			r.Header.Set("Content-Type", "application/x-www-form-urlencoded")
 			w := httptest.NewRecorder()
@@ -109,6 +151,12 @@ func TestC06ConfigHistory(t *testing.T) {
 			rep.Trace(1)
 			if p {
 				rep.Violation(key_+":panic", "ServeSSO panicked: "+strings.SplitN(msg, "\n", 2)[0], replay)
+				return
+			}
+			// one form, with this session's data only
+			if page := w.Body.String(); strings.Count(page, "<form") != 1 || strings.Count(page, "</html>") != 1 || !strings.HasPrefix(strings.TrimSpace(page), "<html") || strings.Contains(page, cfgHistOtherMarker) {
+				replay["page_head"] = page[:min(len(page), 300)]
+				rep.Violation(fmt.Sprintf("C06:config-history:%s:page", hid), fmt.Sprintf("step %d (after %v, cut-off response before it: %v): the reply is not ONE POST form for this request: %d <form, %d </html>, starts %q, carries the other user's data: %v", si+1, names[:si], st.Ab, strings.Count(page, "<form"), strings.Count(page, "</html>"), page[:min(len(page), 40)], strings.Contains(page, cfgHistOtherMarker)), replay)
 				return
 			}
 			xmlb, _, ok := samlResponseInBody(w.Body.String())
